@@ -56,7 +56,9 @@ void newlines_functions_remove_extra_blank_lines()
          }
 
          // delete newlines
-         if (  !pc->Is(CT_COMMENT_MULTI)   // Issue #2195
+         if (  !pc->Is(CT_COMMENT_MULTI)        // Issue #2195
+            && !pc->GetPrev()->Is(CT_IGNORED)   // the blank lines of a disabled region stay
+            && !pc->GetNext()->Is(CT_IGNORED)
             && pc->GetNlCount() > nl_max_blank_in_func)
          {
             LOG_FMT(LNEWLINE, "%s(%d): orig line is %zu, orig col is %zu, Text() '%s', type is %s\n",
